@@ -73,7 +73,7 @@ type chainCfg struct {
 	whitelist  []int
 	votingSecs int
 	vesting    map[int]int64 // account index -> original vesting amount of nund (continuous vesting)
-	dbBackend  string // "memdb" or "goleveldb"
+	dbBackend  string        // "memdb" or "goleveldb"
 	dbDir      string
 }
 
